@@ -320,7 +320,7 @@ def s_case(draw, max_len=5, max_steps=30):
 
 def parts(tier):
     if tier == 'quick':
-        return [Part('models', check, strategy=s_case(), examples=60, shards=4),
+        return [Part('models', check, strategy=s_case(), examples=150, shards=4),
                 Part('constructors', check_ctor, strategy=s_ctor(), examples=250, shards=2)]
     return [Part('models', check, strategy=s_case(8, 100), examples=1500, shards=14),
             Part('constructors', check_ctor, strategy=s_ctor(), examples=10000, shards=2)]
